@@ -6,8 +6,9 @@ Line-protocol driver for C02 (`sqfsmodel c02`).  One operation per input line, o
         checksum = xxh32 truncated to `hbits` bits (harness/weak_xxh.c), toy run-length codec (harness/h_c08.c)
         → ok W=<n> <chk-hex8>:<flags-hex>:<data-hex>… F=<n> <start>:<word>… I=<n> <size>:<start>:<fragidx>:<fragoff>:<sparse>:<ext>:<w,…|->… Z=<file length>:<fnv1a-64 of the output file>
         | err <kind>
+  runs <B> <mb> …same…     the same with `sqfs_block_processor_sync` called before every `end_file` (file still open)
   spec <B> <mb> …same…     the queue-free reference `packRef` (`Sqfs/Spec/BlockProcSpec.lean`; `mb` is ignored) → same format
-  state <B> <mb> …same…
+  state | states <B> <mb> …same…   (`states`: with the `sync` calls of `runs`)
         → the final bookkeeping of the processor (`finish_writes_everything`): backlog, io_queue length, sequence numbers,
           items submitted to the pool, the largest number of items inside the pool at any time (serial pool: a
           function of the workload and `max_backlog`), in-flight copies left
@@ -160,6 +161,21 @@ def parseJob : List String → Option Job
     pure ⟨{ B := b, codec := cd, h := weakXxh hb, byteCompare := bc != 0, pre := pre }, mb, files⟩
   | _ => none
 
+def stateOp (sy : Bool) (rest : List String) : String :=
+  match parseJob rest with
+  | none => "bad-op"
+  | some j =>
+    match runProc j.P j.mb j.files sy with
+    | .ok s =>
+      -- the largest number of items inside the pool at any time, from the values the pool returned
+      let mq := s.pool.ser.rets.foldl (fun (acc : Nat × Nat) r =>
+        match r with
+        | .submit 0 => (acc.1 + 1, max acc.2 (acc.1 + 1))
+        | .deq (some _) => (acc.1 - 1, acc.2)
+        | _ => acc) (0, 0)
+      s!"ok backlog={s.backlog} ioq={s.ioQueue.length} seq={s.ioSeqNum} deq={s.ioDeqSeqNum} pending={s.pool.ser.queue.length} sub={s.pool.table.length} maxq={mq.2} inflight={s.fblkInFlight.length}"
+    | .error e => "err " ++ showErr e
+
 def step (line : String) : String :=
   match words line with
   | "run" :: rest =>
@@ -169,6 +185,13 @@ def step (line : String) : String :=
       match run j.P j.mb j.files with
       | .ok o => showOutput o
       | .error e => "err " ++ showErr e
+  | "runs" :: rest =>
+    match parseJob rest with
+    | none => "bad-op"
+    | some j =>
+      match run j.P j.mb j.files true with
+      | .ok o => showOutput o
+      | .error e => "err " ++ showErr e
   | "spec" :: rest =>
     match parseJob rest with
     | none => "bad-op"
@@ -176,20 +199,8 @@ def step (line : String) : String :=
       match packRef j.P j.files with
       | .ok o => showOutput o
       | .error e => "err " ++ showErr e
-  | "state" :: rest =>
-    match parseJob rest with
-    | none => "bad-op"
-    | some j =>
-      match runProc j.P j.mb j.files with
-      | .ok s =>
-        -- the largest number of items inside the pool at any time, from the values the pool returned
-        let mq := s.pool.ser.rets.foldl (fun (acc : Nat × Nat) r =>
-          match r with
-          | .submit 0 => (acc.1 + 1, max acc.2 (acc.1 + 1))
-          | .deq (some _) => (acc.1 - 1, acc.2)
-          | _ => acc) (0, 0)
-        s!"ok backlog={s.backlog} ioq={s.ioQueue.length} seq={s.ioSeqNum} deq={s.ioDeqSeqNum} pending={s.pool.ser.queue.length} sub={s.pool.table.length} maxq={mq.2} inflight={s.fblkInFlight.length}"
-      | .error e => "err " ++ showErr e
+  | "state" :: rest => stateOp false rest
+  | "states" :: rest => stateOp true rest
   | ["xxh", bits, d] =>
     match bits.toNat?, fromHexFast d with
     | some b, some d => hexNat (weakXxh b d).toNat 8
